@@ -144,6 +144,7 @@ type genPiece struct {
 	// writer on a scratch buffer and returns its contents): the function is walked at this point of the text
 	emit     *ast.FuncDecl
 	emitCall *ast.CallExpr
+	oneOf    [][]genPiece // exactly one of these piece sequences (a local that is assigned on one branch only)
 }
 
 type genGroup struct {
@@ -207,6 +208,17 @@ type genWalker struct {
 	inlineDepth int
 	methods     map[string]*ast.FuncDecl // methods declared in the generator, by name
 	synthConst  map[ast.Expr]string      // constant pieces made by the walker itself (fmt.Fprintf formats)
+	// function values: a function literal kept in a local (`p := func(format string, args ...interface{}) {...}`,
+	// `clientParam := func(name string, t *idl.Type) string {...}`) is a function of the generator like a declared one;
+	// function-typed parameters stand for the argument of the call being walked (locals)
+	closures map[types.Object]*ast.FuncDecl
+	litDecls map[*ast.FuncLit]*ast.FuncDecl
+	// valueFns: string-returning functions whose result is spliced into the output and that are too involved to be
+	// evaluated to pieces (a recursive type writer returning its text): walked, where the result is written, as
+	// emitters whose return values and whose writes to a local builder are the text
+	valueFns map[*ast.FuncDecl]bool
+	curDecl  *ast.FuncDecl
+	synthAlt map[ast.Expr][]ast.Expr // a value that is one of several expressions (a local assigned on one branch only)
 }
 
 type genProblem struct {
@@ -410,6 +422,17 @@ func (a *genWalker) pieces(e ast.Expr) ([]genPiece, bool) {
 	if k, ok := a.synthConst[e]; ok {
 		return []genPiece{{konst: k}}, true
 	}
+	if alts, ok := a.synthAlt[e]; ok {
+		p := genPiece{}
+		for _, alt := range alts {
+			ps, ok := a.pieces(alt)
+			if !ok {
+				return nil, false
+			}
+			p.oneOf = append(p.oneOf, ps)
+		}
+		return []genPiece{p}, true
+	}
 	switch x := e.(type) {
 	case *ast.ParenExpr:
 		return a.pieces(x.X)
@@ -477,12 +500,23 @@ func (a *genWalker) pieces(e ast.Expr) ([]genPiece, bool) {
 			}
 		}
 	case *ast.CallExpr:
-		if id, ok := x.Fun.(*ast.Ident); ok {
-			if vals, _, ok := a.tableFunc(a.funcs[id.Name]); ok {
-				return []genPiece{{alts: vals}}, true
+		// fmt.Sprintf("format", args...): the equivalent concatenation
+		if se, ok := x.Fun.(*ast.SelectorExpr); ok && se.Sel.Name == "Sprintf" && len(x.Args) >= 1 {
+			if id, ok := se.X.(*ast.Ident); ok && id.Name == "fmt" {
+				if ce, ok := a.formatExpr(x.Args[0], x.Args[1:]); ok {
+					return a.pieces(ce)
+				}
+				return nil, false
 			}
-			if g, inner := a.stringForwarder(a.funcs[id.Name]); g != nil {
-				return []genPiece{{emit: g, emitCall: inner}}, true
+		}
+		if _, ok := x.Fun.(*ast.Ident); ok {
+			if fdc := a.funcDeclOf(x.Fun); fdc != nil {
+				if vals, _, ok := a.tableFunc(fdc); ok {
+					return []genPiece{{alts: vals}}, true
+				}
+				if g, inner := a.stringForwarder(fdc); g != nil {
+					return []genPiece{{emit: g, emitCall: inner}}, true
+				}
 			}
 		}
 		// a string-valued method of the generator's state (`g.qualified(name)`)
@@ -542,10 +576,24 @@ func (a *genWalker) pieces(e ast.Expr) ([]genPiece, bool) {
 				}
 			}
 		}
-		if id, ok := x.Fun.(*ast.Ident); ok {
-			if fd, ok := a.funcs[id.Name]; ok && fd.Type.Results != nil && len(fd.Type.Results.List) >= 1 &&
+		if _, ok := x.Fun.(*ast.Ident); ok {
+			if fd := a.funcDeclOf(x.Fun); fd != nil && fd.Body != nil && fd.Type.Results != nil && len(fd.Type.Results.List) >= 1 &&
 				types.Identical(a.info.TypeOf(fd.Type.Results.List[0].Type), types.Typ[types.String]) {
-				return a.evalStringFunc(fd, x)
+				// (the call is kept with what its arguments mean here: it is walked later, where the text is written)
+				frozen, _ := a.freeze(x).(*ast.CallExpr)
+				if frozen == nil {
+					frozen = x
+				}
+				if a.valueFns[fd] {
+					return []genPiece{{emit: fd, emitCall: frozen}}, true
+				}
+				if ps, ok := a.evalStringFunc(fd, x); ok {
+					return ps, true
+				}
+				// too involved to be evaluated to pieces (several returns of composed text, a builder filled in a
+				// loop, recursion): the function is walked where its result is written
+				a.valueFns[fd] = true
+				return []genPiece{{emit: fd, emitCall: frozen}}, true
 			}
 		}
 		// strings.NewReplacer("a", "b", ...).Replace(x) with single-byte constant patterns: as the Replace calls in turn
@@ -801,7 +849,7 @@ func (a *genWalker) feedExpr(l lexState, e ast.Expr) lexState {
 	// `q := "\"" + name + "\""` must not split the text it is spliced into)
 	var merged []genPiece
 	for _, p := range ps {
-		isK := func(q genPiece) bool { return q.dyn == nil && q.alts == nil && q.group == nil && q.emit == nil }
+		isK := func(q genPiece) bool { return q.dyn == nil && q.alts == nil && q.group == nil && q.emit == nil && q.oneOf == nil }
 		if isK(p) && len(merged) > 0 && isK(merged[len(merged)-1]) {
 			merged[len(merged)-1].konst += p.konst
 			continue
@@ -819,7 +867,7 @@ func (a *genWalker) feedExpr(l lexState, e ast.Expr) lexState {
 		if p.emit != nil {
 			continue // the emitting function's own text follows in its own segments
 		}
-		if p.dyn != nil || p.alts != nil || p.group != nil {
+		if p.dyn != nil || p.alts != nil || p.group != nil || p.oneOf != nil {
 			a.curSeg.Text += "\x00"
 		} else {
 			a.curSeg.Text += p.konst
@@ -830,6 +878,23 @@ func (a *genWalker) feedExpr(l lexState, e ast.Expr) lexState {
 			a.flushSeg()
 			l = a.callFn(p.emit, l, p.emitCall)
 			a.flushSeg()
+			a.lastConst = ""
+			continue
+		}
+		if p.oneOf != nil {
+			// exactly one of several texts: each is fed from here; all must leave the output in the same mode
+			var out lexState
+			for k, alt := range p.oneOf {
+				o := a.feedPieces(l, alt, e)
+				if k == 0 {
+					out = o
+				} else if j, ok := joinLex(out, o); ok {
+					out = j
+				} else {
+					a.problem(e, "the alternative values of a local leave the output in different lexical modes")
+				}
+			}
+			l = out
 			a.lastConst = ""
 			continue
 		}
@@ -896,6 +961,40 @@ func (a *genWalker) feedExpr(l lexState, e ast.Expr) lexState {
 func (a *genWalker) feedPieces(l lexState, ps []genPiece, e ast.Expr) lexState {
 	for i, p := range ps {
 		switch {
+		case p.emit != nil:
+			a.flushSeg()
+			l = a.callFn(p.emit, l, p.emitCall)
+			a.flushSeg()
+		case p.oneOf != nil:
+			var out lexState
+			for k, alt := range p.oneOf {
+				o := a.feedPieces(l, alt, e)
+				if k == 0 {
+					out = o
+				} else if j, ok := joinLex(out, o); ok {
+					out = j
+				} else {
+					a.problem(e, "the alternative values of a local leave the output in different lexical modes")
+				}
+			}
+			l = out
+		case p.group != nil:
+			out := l
+			for _, el := range p.group.elems {
+				o := a.feedPieces(l, el, e)
+				if j, ok := joinLex(out, o); ok {
+					out = j
+				} else {
+					a.problem(e, "a joined list element changes the lexical mode of the output")
+				}
+			}
+			a.Frags = append(a.Frags, genFrag{e.Pos(), a.curFn, p.group.sep, l})
+			if j, ok := joinLex(out, l.feedStr(p.group.sep)); ok {
+				out = j
+			} else {
+				a.problem(e, fmt.Sprintf("the separator %q of a joined list changes the lexical mode of the output", p.group.sep))
+			}
+			l = out
 		case p.dyn != nil:
 			next, hasNext := "", false
 			if i+1 < len(ps) && ps[i+1].dyn == nil {
@@ -1178,8 +1277,8 @@ func (a *genWalker) stmt(s ast.Stmt, l lexState, rets *[]lexState) (lexState, bo
 					return l, false
 				}
 			}
-			if id, ok := call.Fun.(*ast.Ident); ok {
-				if fd, ok := a.funcs[id.Name]; ok {
+			if _, ok := call.Fun.(*ast.Ident); ok {
+				if fd := a.funcDeclOf(call.Fun); fd != nil && fd.Body != nil {
 					if variadicEmitter(a.info, fd) && !call.Ellipsis.IsValid() {
 						if e := concatArgs(call.Args[len(call.Args)-variadicCount(fd, call):]); e != nil {
 							l = a.feedExpr(l, e)
@@ -1223,6 +1322,19 @@ func (a *genWalker) stmt(s ast.Stmt, l lexState, rets *[]lexState) (lexState, bo
 			}
 		}
 	case *ast.AssignStmt:
+		// name := func(...) {...}: a function of the generator kept in a local
+		if len(x.Lhs) == 1 && len(x.Rhs) == 1 && x.Tok == token.DEFINE {
+			if lit, ok := x.Rhs[0].(*ast.FuncLit); ok {
+				if id, ok := x.Lhs[0].(*ast.Ident); ok {
+					if obj := a.info.Defs[id]; obj != nil {
+						if _, seen := a.closures[obj]; !seen {
+							a.closures[obj] = &ast.FuncDecl{Name: id, Type: lit.Type, Body: lit.Body}
+						}
+						return l, false
+					}
+				}
+			}
+		}
 		if len(x.Rhs) == 1 {
 			// g, err := newGenerator(...): the constructor of the generator's state is walked (without emitting) for the
 			// values it gives the state's string members
@@ -1326,12 +1438,47 @@ func (a *genWalker) stmt(s ast.Stmt, l lexState, rets *[]lexState) (lexState, bo
 		if x.Init != nil {
 			a.stmt(x.Init, l, rets)
 		}
+		before := map[types.Object]ast.Expr{}
+		for k, v := range a.locals {
+			before[k] = v
+		}
 		thenL, thenDead := a.branch(x.Body.List, l, rets)
+		afterThen := map[types.Object]ast.Expr{}
+		for k, v := range a.locals {
+			afterThen[k] = v
+		}
 		elseL, elseDead := l, false
 		if x.Else != nil {
+			// the else branch starts from what held before the if
+			for k := range a.locals {
+				if _, had := before[k]; !had {
+					delete(a.locals, k)
+				}
+			}
+			for k, v := range before {
+				a.locals[k] = v
+			}
 			a.flushSeg()
 			elseL, elseDead = a.stmt(x.Else, l, rets)
 			a.flushSeg()
+		}
+		// a string local that the two ways through the statement leave with different values is one of them
+		if !thenDead {
+			for k, vThen := range afterThen {
+				vElse, hadElse := a.locals[k]
+				if _, isStr := k.Type().Underlying().(*types.Basic); !isStr || !types.Identical(k.Type().Underlying(), types.Typ[types.String]) {
+					continue
+				}
+				if _, known := before[k]; !known {
+					continue // declared inside the branch
+				}
+				switch {
+				case elseDead:
+					a.locals[k] = vThen
+				case hadElse && vElse != vThen:
+					a.locals[k] = a.altExpr(vThen, vElse)
+				}
+			}
 		}
 		switch {
 		case thenDead && elseDead:
@@ -1394,6 +1541,13 @@ func (a *genWalker) stmt(s ast.Stmt, l lexState, rets *[]lexState) (lexState, bo
 		if a.evalDepth > 0 && len(x.Results) >= 1 {
 			a.retExprs = append(a.retExprs, x.Results[0])
 			a.retFn = append(a.retFn, a.curFn)
+		}
+		if a.evalDepth == 0 && a.curDecl != nil && a.valueFns[a.curDecl] && len(x.Results) == 1 {
+			// the function's text: what it wrote to its local builder so far (already fed), or this result
+			if !a.isLocalBuilderResult(x.Results[0]) {
+				l = a.feedExpr(l, x.Results[0])
+				a.flushSeg()
+			}
 		}
 		*rets = append(*rets, l)
 		return l, true
@@ -1480,7 +1634,8 @@ func (a *genWalker) evalStringFunc(fd *ast.FuncDecl, call *ast.CallExpr) ([]genP
 		idx := 0
 		for _, fld := range fd.Type.Params.List {
 			for _, pn := range fld.Names {
-				if types.Identical(a.info.TypeOf(fld.Type), types.Typ[types.String]) && idx < len(call.Args) {
+				_, isFn := a.info.TypeOf(fld.Type).Underlying().(*types.Signature)
+				if (types.Identical(a.info.TypeOf(fld.Type), types.Typ[types.String]) || isFn) && idx < len(call.Args) {
 					if obj := a.info.Defs[pn]; obj != nil {
 						old, had := a.locals[obj]
 						bs = append(bs, bound{obj, old, had, a.kwSafe[obj]})
@@ -1635,7 +1790,8 @@ func (a *genWalker) callFn(fd *ast.FuncDecl, l lexState, at ast.Node) lexState {
 		idx := 0
 		for _, fld := range fd.Type.Params.List {
 			for _, pn := range fld.Names {
-				if types.Identical(a.info.TypeOf(fld.Type), types.Typ[types.String]) && idx < len(call.Args) {
+				_, isFn := a.info.TypeOf(fld.Type).Underlying().(*types.Signature)
+				if (types.Identical(a.info.TypeOf(fld.Type), types.Typ[types.String]) || isFn) && idx < len(call.Args) {
 					if obj := a.info.Defs[pn]; obj != nil {
 						bs = append(bs, bound{obj, call.Args[idx]})
 					}
@@ -1653,13 +1809,13 @@ func (a *genWalker) callFn(fd *ast.FuncDecl, l lexState, at ast.Node) lexState {
 				// the argument is evaluated in the caller: freeze what its identifiers mean now
 				a.locals[b.obj] = a.freeze(b.e)
 			}
-			save := a.curFn
-			a.curFn = fd.Name.Name
+			save, saveDecl := a.curFn, a.curDecl
+			a.curFn, a.curDecl = fd.Name.Name, fd
 			a.inlineDepth++
 			var rets []lexState
 			out, dead := a.stmts(fd.Body.List, l, &rets)
 			a.inlineDepth--
-			a.curFn = save
+			a.curFn, a.curDecl = save, saveDecl
 			for _, b := range bs {
 				if had[b.obj] {
 					a.locals[b.obj] = saved[b.obj]
@@ -1688,11 +1844,11 @@ func (a *genWalker) callFn(fd *ast.FuncDecl, l lexState, at ast.Node) lexState {
 		return out
 	}
 	a.memo[key] = l // coinductive assumption for recursion: returns in the entry mode (validated below)
-	save := a.curFn
-	a.curFn = fd.Name.Name
+	save, saveDecl := a.curFn, a.curDecl
+	a.curFn, a.curDecl = fd.Name.Name, fd
 	var rets []lexState
 	out, dead := a.stmts(fd.Body.List, l, &rets)
-	a.curFn = save
+	a.curFn, a.curDecl = save, saveDecl
 	if !dead {
 		rets = append(rets, out)
 	}
@@ -1723,6 +1879,7 @@ func RunGenWalker(p *Prog, m *idlModel, root string) (*genWalker, lexState, stri
 	a := &genWalker{p: p, info: pk.TypesInfo, fset: p.Fset, funcs: map[string]*ast.FuncDecl{}, classes: idlFieldClasses(m),
 		locals: map[types.Object]ast.Expr{}, kwSafe: map[types.Object]bool{}, memo: map[string]lexState{}, curFn: root}
 	a.methods, a.synthConst = map[string]*ast.FuncDecl{}, map[ast.Expr]string{}
+	a.closures, a.litDecls, a.valueFns, a.synthAlt = map[types.Object]*ast.FuncDecl{}, map[*ast.FuncLit]*ast.FuncDecl{}, map[*ast.FuncDecl]bool{}, map[ast.Expr][]ast.Expr{}
 	for _, f := range pk.Syntax {
 		for _, d := range f.Decls {
 			if fd, ok := d.(*ast.FuncDecl); ok && fd.Recv == nil {
@@ -2119,7 +2276,7 @@ func (a *genWalker) formatExpr(format ast.Expr, args []ast.Expr) (ast.Expr, bool
 		case '%':
 			cur += "%"
 		case 's':
-			if ai >= len(args) || !types.Identical(a.info.TypeOf(args[ai]).Underlying(), types.Typ[types.String]) {
+			if ai >= len(args) || !a.isStringExpr(args[ai]) {
 				return nil, false
 			}
 			if cur != "" {
@@ -2143,4 +2300,136 @@ func (a *genWalker) formatExpr(format ast.Expr, args []ast.Expr) (ast.Expr, bool
 		e = &ast.BinaryExpr{X: e, Op: token.ADD, Y: p, OpPos: format.Pos()}
 	}
 	return e, true
+}
+
+// funcDeclOf: the function a call through e invokes, if it is known: a declared function of the generator, a function
+// literal kept in a local, a function-typed parameter bound to such a value for the call being walked, or a literal.
+func (a *genWalker) funcDeclOf(e ast.Expr) *ast.FuncDecl {
+	for depth := 0; depth < 6; depth++ {
+		switch x := e.(type) {
+		case *ast.ParenExpr:
+			e = x.X
+			continue
+		case *ast.FuncLit:
+			if d, ok := a.litDecls[x]; ok {
+				return d
+			}
+			d := &ast.FuncDecl{Name: &ast.Ident{Name: fmt.Sprintf("func@%d", a.fset.Position(x.Pos()).Line), NamePos: x.Pos()}, Type: x.Type, Body: x.Body}
+			a.litDecls[x] = d
+			return d
+		case *ast.Ident:
+			obj := a.info.Uses[x]
+			if obj == nil {
+				obj = a.info.Defs[x]
+			}
+			if obj == nil {
+				return nil
+			}
+			if d, ok := a.closures[obj]; ok {
+				return d
+			}
+			if def, ok := a.locals[obj]; ok {
+				if _, isSig := obj.Type().Underlying().(*types.Signature); isSig {
+					e = def
+					continue
+				}
+				return nil
+			}
+			if fn, ok := obj.(*types.Func); ok && fn.Pkg() != nil && fn.Pkg().Path() == pkgGen {
+				if sig, ok := fn.Type().(*types.Signature); ok && sig.Recv() == nil {
+					return a.funcs[x.Name]
+				}
+			}
+			return nil
+		default:
+			return nil
+		}
+	}
+	return nil
+}
+
+// typeOf: the type of e, also for expressions the walker built itself from typed parts.
+func (a *genWalker) typeOf(e ast.Expr) types.Type {
+	if t := a.info.TypeOf(e); t != nil {
+		return t
+	}
+	if _, ok := a.synthConst[e]; ok {
+		return types.Typ[types.String]
+	}
+	if alts, ok := a.synthAlt[e]; ok && len(alts) > 0 {
+		return a.typeOf(alts[0])
+	}
+	switch x := e.(type) {
+	case *ast.ParenExpr:
+		return a.typeOf(x.X)
+	case *ast.BinaryExpr:
+		return a.typeOf(x.X)
+	case *ast.BasicLit:
+		if x.Kind == token.STRING {
+			return types.Typ[types.String]
+		}
+	case *ast.CallExpr:
+		if ft := a.typeOf(x.Fun); ft != nil {
+			if sig, ok := ft.Underlying().(*types.Signature); ok && sig.Results().Len() >= 1 {
+				return sig.Results().At(0).Type()
+			}
+		}
+	case *ast.Ident:
+		if obj := a.info.Uses[x]; obj != nil {
+			return obj.Type()
+		}
+		if obj, ok := a.origIdent[x]; ok {
+			return obj.Type()
+		}
+	}
+	return nil
+}
+
+func (a *genWalker) isStringExpr(e ast.Expr) bool {
+	t := a.typeOf(e)
+	return t != nil && types.Identical(t.Underlying(), types.Typ[types.String])
+}
+
+// altExpr: a value that is one of the given expressions.
+func (a *genWalker) altExpr(alts ...ast.Expr) ast.Expr {
+	var flat []ast.Expr
+	for _, e := range alts {
+		if inner, ok := a.synthAlt[e]; ok {
+			flat = append(flat, inner...)
+		} else {
+			flat = append(flat, e)
+		}
+	}
+	var uniq []ast.Expr
+	for _, e := range flat {
+		dup := false
+		for _, u := range uniq {
+			if u == e {
+				dup = true
+			}
+		}
+		if !dup {
+			uniq = append(uniq, e)
+		}
+	}
+	if len(uniq) == 1 {
+		return uniq[0]
+	}
+	n := &ast.Ident{Name: "$alt", NamePos: uniq[0].Pos()}
+	a.synthAlt[n] = uniq
+	return n
+}
+
+// isLocalBuilderResult: e is `X.String()` for a strings.Builder / bytes.Buffer X (the text a value emitter has written).
+func (a *genWalker) isLocalBuilderResult(e ast.Expr) bool {
+	c, ok := e.(*ast.CallExpr)
+	if !ok || len(c.Args) != 0 {
+		return false
+	}
+	se, ok := c.Fun.(*ast.SelectorExpr)
+	if !ok || se.Sel.Name != "String" {
+		return false
+	}
+	t := a.info.TypeOf(se.X)
+	return t != nil && isBufferType(t)
 }
